@@ -278,6 +278,7 @@ func run(t *testing.T, sc Scenario) *core.Result {
 				}
 				before := sess.State()
 				nmed := len(sess.Medias())
+				ncon := len(sess.Conns())
 				ctx, cancel := context.WithTimeout(context.Background(), 10*time.Second)
 				nc, err := node.DialContext(ctx, "tcp", "10.0.0.1:8554")
 				cancel()
@@ -310,6 +311,15 @@ func run(t *testing.T, sc Scenario) *core.Result {
 				}
 				if st := sess.State(); st != before || len(sess.Medias()) != nmed {
 					w.Fail("c19/intrusion disturbed", "intrusion %d: %s from %s changed the session: state %s -> %s, medias %d -> %d", i, in.Method, in.From, before, st, nmed, len(sess.Medias()))
+					return
+				}
+				// ... and its set of connections: the refused connection is gone and must not stay attached
+				// to the session (a session over TCP lives as long as it has connections)
+				for k := 0; len(sess.Conns()) > ncon && k < 40; k++ {
+					time.Sleep(5 * time.Millisecond)
+				}
+				if n := len(sess.Conns()); n > ncon {
+					w.Fail("c19/intrusion disturbed", "intrusion %d: %s from %s: the session had %d connection(s) before, %d after the refused connection was closed", i, in.Method, in.From, ncon, n)
 					return
 				}
 				w.Probe("intrusion_rejected")
